@@ -632,6 +632,8 @@ def error_cases(W):
         ("fillnodata(direction='x')", lambda: f.fillnodata(W.arr("holes", np.int64), -9999, direction="x"), "ValueError"),
         ("accuflux(wrong size)", lambda: f.accuflux(np.ones(n + 1)), "ValueError"),
         ("path(direction='x')", lambda: f.path(idxs=np.array([W.w["valid"][0]]), direction="x"), "ValueError"),
+        ("river_depth(no slope information)", lambda: f.river_depth(W.arr("area_distinct", np.float64), W.arr("elev", np.float64) + 1), "ValueError"),
+        ("river_depth(method='x')", lambda: f.river_depth(W.arr("area_distinct", np.float64), W.arr("elev", np.float64) + 1, method="x"), "ValueError"),
     ]
     if W.w["cls"] == "raster":
         cases += [
